@@ -461,13 +461,38 @@ func (e *Engine) findCandidates(s *Solver, fn *ssa.Function, args []Value, names
 	}
 	var cands []Candidate
 	var blocks []*Term
+	// targeted attempts: push one numeric bound of the goal just past its limit
+	var targets []*Term
+	{
+		seenT := map[*Term]bool{}
+		goalGround.walk(func(t *Term) bool {
+			if (t.Op == "<=" || t.Op == "<") && len(t.Args) == 2 && t.Args[1].Num != nil && !t.Args[0].IsNum() && !seenT[t] {
+				seenT[t] = true
+				lim := t.Args[1]
+				if t.Op == "<" {
+					lim = Sub(lim, Num(1))
+				}
+				targets = append(targets, Eq(t.Args[0], Add(lim, Num(1))))
+			}
+			return true
+		})
+		if len(targets) > 8 {
+			targets = targets[:8]
+		}
+	}
 	useGround := !goalGround.IsTrue()
-	for k := 0; k < n; k++ {
+	total := n + len(targets)
+	for k := 0; k < total; k++ {
+		var extra []*Term
+		if k >= n {
+			extra = []*Term{targets[k-n]}
+			blocks = nil
+		}
 		g := goal
 		if useGround {
 			g = goalGround
 		}
-		text := e.smtTextQF(append(append([]*Term{}, hyps...), blocks...), g, l.terms)
+		text := e.smtTextQF(append(append(append([]*Term{}, hyps...), blocks...), extra...), g, l.terms)
 		file := filepath.Join(s.workDir, fmt.Sprintf("ce_%s_%d.smt2", sanitize(o.Name), k))
 		os.WriteFile(file, []byte(text), 0o644)
 		res := runSolver(solverCmds[0], file, 10*time.Second)
@@ -477,7 +502,14 @@ func (e *Engine) findCandidates(s *Solver, fn *ssa.Function, args []Value, names
 			continue
 		}
 		if res.Status != "sat" {
-			break
+			if k >= n-1 {
+				if k < n {
+					k = n - 1
+				}
+				continue
+			}
+			k = n - 1
+			continue
 		}
 		// parse (get-value ...) output: first s-exp after "sat"
 		out := res.Output
@@ -510,6 +542,9 @@ func (e *Engine) findCandidates(s *Solver, fn *ssa.Function, args []Value, names
 			c.Inputs[names[i]] = e.concretize(entry, a, fn.Params[i].Type(), l, false, &caps, 0)
 		}
 		cands = append(cands, c)
+		if alt, changed := sanitizeCandidate(c); changed {
+			cands = append(cands, alt)
+		}
 		// block this assignment of the integer/bool scalar leaves (not the pinned bytes)
 		var diff []*Term
 		for i, t := range l.terms {
@@ -529,6 +564,43 @@ func (e *Engine) findCandidates(s *Solver, fn *ssa.Function, args []Value, names
 		os.Remove(file)
 	}
 	return cands
+}
+
+// sanitizeCandidate replaces the elements of string lists by a short ASCII default:
+// quantified facts about elements are not part of the approximation, so the raw
+// model's elements are often arbitrary.
+func sanitizeCandidate(c Candidate) (Candidate, bool) {
+	changed := false
+	var fix func(j JVal) JVal
+	fix = func(j JVal) JVal {
+		if j.F != nil {
+			m := map[string]JVal{}
+			for k, v := range j.F {
+				m[k] = fix(v)
+			}
+			j.F = m
+		}
+		if j.P != nil {
+			p := fix(*j.P)
+			j.P = &p
+		}
+		if len(j.L) > 0 && j.L[0].S != nil {
+			def := "6162" // "ab"
+			nl := make([]JVal, len(j.L))
+			for i := range nl {
+				d := def
+				nl[i] = JVal{S: &d}
+			}
+			j.L = nl
+			changed = true
+		}
+		return j
+	}
+	out := Candidate{Inputs: map[string]JVal{}, Model: c.Model + " (list elements replaced by \"ab\")"}
+	for k, v := range c.Inputs {
+		out.Inputs[k] = fix(v)
+	}
+	return out, changed
 }
 
 func (e *Engine) smtTextQF(hyps []*Term, goal *Term, leaves []*Term) string {
